@@ -35,7 +35,12 @@ func CanonRefs(s string) string {
 		return s
 	}
 	r := strings.NewReplacer("&quot;", "&#34;", "&apos;", "&#39;", "&#x27;", "&#39;", "&#x22;", "&#34;", "&#034;", "&#34;", "&#039;", "&#39;")
-	return r.Replace(s)
+	s = r.Replace(s)
+	// the same spellings after being escaped again (a captured block printed under autoescaping)
+	for strings.Contains(s, "amp;quot;") {
+		s = strings.ReplaceAll(s, "amp;quot;", "amp;#34;")
+	}
+	return s
 }
 
 func isWS(c byte) bool  { return c == ' ' || c == '\t' || c == '\r' || c == '\n' }
